@@ -518,5 +518,25 @@ def r13_9(ctx):
     delegate(ctx, c02.r02_11, lambda c: 'config_string' in c)
 
 
+def r13_10(ctx):
+    """R13.10 what is written is what was compared: _write_if_changed() writes exactly the text it handed to _contents_eq() - one
+    write of the `contents` parameter. Anything added while writing (a final newline) makes the file differ from the text of
+    the next, unchanged generation, and it is rewritten every time."""
+    repo = ctx.repo
+    f = repo.func(f"{CORE}:Kconfig._write_if_changed")
+    ctx.analysed(f.qual)
+    prm = [a.arg for a in f.node.args.args][2]
+    writes = [n for n in ast.walk(f.node) if isinstance(n, ast.Call) and isinstance(n.func, ast.Attribute) and n.func.attr in ("write", "writelines")]
+    cmp = [n for n in ast.walk(f.node) if isinstance(n, ast.Call) and ast.unparse(n.func).endswith("_contents_eq")]
+    if not writes or not cmp:
+        raise AnchorError("_write_if_changed: write / _contents_eq not found")
+    construct = "Kconfig._write_if_changed/the file gets the compared text and nothing else"
+    ok = len(writes) == 1 and writes[0].func.attr == "write" and len(writes[0].args) == 1 and ast.unparse(writes[0].args[0]) == prm and ast.unparse(cmp[0].args[1]) == prm
+    other = [w for w in writes if not (len(w.args) == 1 and ast.unparse(w.args[0]) == prm)]
+    (ctx.ok(construct, f.loc(writes[0])) if ok else
+     ctx.bad(construct, f"`{ast.unparse((other or writes)[0])[:60]}` writes something else than `{prm}`: the file never equals the text of the next generation and is rewritten "
+             "(new modification time) although nothing changed", f.loc((other or writes)[0])))
+
+
 def rules():
-    return [("R13.9", r13_9, 1), ("R13.8", r13_8, 1), ("R13.7", r13_7, 1), ("R13.6", r13_6, 4), ("R13.5", r13_5, 3), ("R13.1", r13_1, 6), ("R13.1b", r13_1b, 2), ("R13.2", r13_2, 4), ("R13.3", r13_3, 4), ("R13.4", r13_4, 3)]
+    return [("R13.10", r13_10, 1), ("R13.9", r13_9, 1), ("R13.8", r13_8, 1), ("R13.7", r13_7, 1), ("R13.6", r13_6, 4), ("R13.5", r13_5, 3), ("R13.1", r13_1, 6), ("R13.1b", r13_1b, 2), ("R13.2", r13_2, 4), ("R13.3", r13_3, 4), ("R13.4", r13_4, 3)]
